@@ -96,6 +96,51 @@ def exMapOracle : Oracle := fun k =>
   else if k.path == ["TOP", "USE"] then some (.obj [("r", .atom "99")])
   else none
 
+/-- map calls of a stage in typed-map mode and over a literal that arrives through a pipeline input -/
+def exMapG : Program :=
+  { structs := [("PAIR", [⟨"a", xInt⟩, ⟨"b", xStr⟩]),
+                ("WIDE", [⟨"a", xInt⟩, ⟨"b", xStr⟩, ⟨"c", ⟨"float", 0, 0⟩⟩])]
+    callables :=
+      [ ("GEN", .stage [⟨"n", xInt⟩] [⟨"w", xWide⟩, ⟨"x", xInt⟩]),
+        ("WORK", .stage [⟨"x", xInt⟩, ⟨"p", xPair⟩, ⟨"k", xInt⟩] [⟨"y", xInt⟩, ⟨"q", xWide⟩]),
+        ("USEM", .stage [⟨"ys", ⟨"int", 1, 0⟩⟩, ⟨"qs", ⟨"PAIR", 1, 0⟩⟩, ⟨"qa", ⟨"int", 1, 0⟩⟩] [⟨"r", xInt⟩]),
+        ("INNER", .pipeline [⟨"xs", ⟨"int", 0, 1⟩⟩, ⟨"ps", ⟨"PAIR", 0, 1⟩⟩, ⟨"k", xInt⟩]
+            [⟨"ys", ⟨"int", 0, 1⟩⟩, ⟨"qs", ⟨"PAIR", 0, 1⟩⟩]
+          [ { id := "WORK", callee := "WORK", mapped := true, disabled := none,
+              binds := [⟨"x", true, .self "xs" []⟩, ⟨"p", true, .self "ps" []⟩, ⟨"k", false, .self "k" []⟩] } ]
+          [("ys", .ref "WORK" ["y"]), ("qs", .ref "WORK" ["q"])]),
+        ("TOP", .pipeline [⟨"v", xInt⟩] [⟨"ys", ⟨"int", 0, 1⟩⟩, ⟨"ms", ⟨"int", 1, 0⟩⟩, ⟨"r", xInt⟩]
+          [ { id := "GEN", callee := "GEN", mapped := false, disabled := none,
+              binds := [⟨"n", false, .self "v" []⟩] },
+            { id := "IN", callee := "INNER", mapped := false, disabled := none,
+              binds := [⟨"xs", false, .arr [.lit (.atom "1"), .ref "GEN" ["x"]]⟩,
+                        ⟨"ps", false, .arr [.ref "GEN" ["w"], .struct [("a", .lit (.atom "2")), ("b", .lit (.atom "\"t\""))]]⟩,
+                        ⟨"k", false, .self "v" []⟩] },
+            { id := "W2", callee := "WORK", mapped := true, disabled := none,
+              binds := [⟨"x", true, .map [("ka", .self "v" []), ("kb", .ref "GEN" ["x"])]⟩,
+                        ⟨"p", false, .ref "GEN" ["w"]⟩, ⟨"k", false, .lit (.atom "7")⟩] },
+            { id := "USEM", callee := "USEM", mapped := false, disabled := none,
+              binds := [⟨"ys", false, .ref "W2" ["y"]⟩, ⟨"qs", false, .ref "W2" ["q"]⟩,
+                        ⟨"qa", false, .ref "W2" ["q", "a"]⟩] } ]
+          [("ys", .ref "IN" ["ys"]), ("ms", .ref "W2" ["y"]), ("r", .ref "USEM" ["r"])]) ]
+    top := { id := "TOP", callee := "TOP", mapped := false, disabled := none,
+             binds := [⟨"v", false, .lit (.atom "5")⟩] } }
+
+def exMapGOracle : Oracle := fun k =>
+  if k.path == ["TOP", "GEN"] then some (.obj [("w", exWide "1"), ("x", .atom "3")])
+  else if k.path == ["TOP", "IN", "WORK"] then
+    match k.forks with
+    | [("WORK", .i n)] => some (.obj [("y", .atom (toString (10 + n))), ("q", exWide (toString (20 + n)))])
+    | _ => none
+  else if k.path == ["TOP", "W2"] then
+    match k.forks with
+    | [("W2", .k s)] => some (.obj [("y", .atom ("\"" ++ s ++ "\"")), ("q", exWide "30")])
+    | _ => none
+  else if k.path == ["TOP", "USEM"] then some (.obj [("r", .atom "99")])
+  else none
+
+def exMapGStore : Store := storeOfNodes exNm (staticProgram exMapG exNm).2 exMapGOracle
+
 def exMapStore : Store := storeOfNodes exNm (staticProgram exMap exNm).2 exMapOracle
 
 end Proofs.ResolverStatic
